@@ -287,9 +287,30 @@ def run(ctx):
                        "the C++ plan is executed against the reference codec by C01/C03 on the same corpus", "member names are not compared (name mangling differs per target), only order and encodings"]
     keys = [("ser", k) for k in corpus.ser_keys(12 if quick else 800, "p")] + [("evo", "c14_%d_%d" % (common.seed(), i)) for i in range(3 if quick else 150)]
 
+    keys.append(("zoo", "unionzoo"))
+
+    def union_zoo():
+        """unions of three and four cases in every order of JSON kinds: whether a union is written bare or tagged depends on *all* pairs of cases"""
+        import itertools
+        kinds = [("int32", P("int32")), ("str", P("string")), ("f64", P("float64")), ("flag", P("bool")), ("d", P("date")), ("u8", P("uint8")), ("rec", N("ZRec")), ("en", N("ZEnum"))]
+        fields = []
+        for n in (3, 4):
+            for combo in itertools.permutations(kinds[:6] if n == 3 else kinds, n):
+                if len(fields) >= 150 and n == 3:
+                    break
+                if n == 4 and len(fields) >= 230:
+                    break
+                fields.append(("u%d" % len(fields), U(tuple((None, t) for nm, t in combo), len(fields) % 4 == 0)))       # implicit tags (type names)
+        recs = [Rec("ZRec", [("a", P("int32"))]), En("ZEnum", [("p", 0), ("q", 1)], None, False, False)]
+        protos = []
+        for i in range(0, len(fields), 40):
+            recs.append(Rec("ZU%d" % (i // 40), fields[i:i + 40]))
+            protos.append(Proto("ZP%d" % (i // 40), [("r", N("ZU%d" % (i // 40))), ("s", S(fields[i][1]))]))
+        return Pkg("UnionZoo", recs + protos)
+
     def one(item):
         kind, key = item
-        pkg = corpus.ser_package(key, depth=3) if kind == "ser" else evo.evo_base(key)
+        pkg = union_zoo() if kind == "zoo" else (corpus.ser_package(key, depth=3) if kind == "ser" else evo.evo_base(key))
         root = os.path.join(ctx.workdir, "cases", key)
         shutil.rmtree(root, ignore_errors=True)
         outs = emit.default_outputs("../out", matlab=True, cpp=False)
